@@ -348,6 +348,44 @@ fn scan_stream(rep: &mut Report, drv: &mut Driver, rng: &mut Rng, n: usize) -> R
     Ok(())
 }
 
+/// "numbers up to the 3-decimal output rounding": every number svgdx writes goes through `fstr`.
+/// The function itself against the Lean model `Num.fstr` on the exact value of the f32 — integers,
+/// near-integers on either side, multiples of ten and a hundred with a tiny fraction, values that round
+/// to zero or just not, halves of the last digit, large magnitudes — and against its contract: the text
+/// parses back to within 0.0005 (relative 1e-6 for large values) of the number.
+fn fstr_stream(rep: &mut Report, drv: &mut Driver, rng: &mut Rng, n: usize) -> Result<(), String> {
+    let mut st = Stream::new("num/fstr", "correspondence", "fstr (hook) vs the Lean model Num.fstr on the exact decimal value of random f32: integers, k +- up to 0.0006, multiples of 10 / 100 / 1000 with a tiny fraction, |x| in 0.00005 .. 0.0006, third-decimal ties, numbers of 1-7 significant digits, magnitudes up to 4e9; and the contract that the text parses back to the number within half a unit of the third decimal");
+    for i in 0..n {
+        let tiny = rng.range(-6, 6) as f32 * 0.0001;
+        let x: f32 = match i % 8 {
+            0 => rng.range(-2000, 2000) as f32,
+            1 => rng.range(-300, 300) as f32 + tiny,
+            2 => (rng.range(-40, 40) * 10) as f32 + tiny,
+            3 => (rng.range(-40, 40) * 100) as f32 + tiny * 0.5,
+            4 => rng.range(-12, 12) as f32 * 0.00005,
+            5 => rng.range(-100000, 100000) as f32 / 1000.0 + 0.0005 * (rng.below(3) as f32 - 1.0),
+            6 => (rng.range(1, 9999999) as f32) / 10f32.powi(rng.range(0, 7) as i32) * if rng.chance(1, 2) { -1.0 } else { 1.0 },
+            _ => (rng.range(1, 400) as f32) * 1.0e7 + if rng.chance(1, 2) { 0.0 } else { 128.0 },
+        };
+        let Some(dec) = dec_of_f32(x) else { st.skipped += 1; continue; };
+        st.case(&dec, true, || json!({"x": dec}));
+        let imp = svgdx::verif_hooks::fstr(x);
+        let m = drv.call("fstr", &[&dec])?;
+        let mdl = m.first().cloned().unwrap_or_default();
+        if imp == mdl { st.exact += 1; } else {
+            rep.violation(Violation { kind: "correspondence", stream: st.name.clone(), signature: "fstr".into(), what: format!("fstr({dec}) = {imp:?}, model {mdl:?}"), replay: json!({"x": dec}), confirmed_on_impl: false });
+        }
+        let back: Option<f64> = imp.parse::<f64>().ok();
+        let ok = match back { Some(b) => (b - x as f64).abs() <= 0.0005 + 1e-6 * (x as f64).abs(), None => false };
+        if !ok {
+            let doc = format!("<svg><rect x=\"{dec}\" y=\"0\" width=\"5\" height=\"5\"/></svg>");
+            rep.violation(Violation { kind: "oracle", stream: st.name.clone(), signature: "C04:number-written-wrong".into(), what: format!("the number {dec} is written as {imp:?}"), replay: json!({"input": doc}), confirmed_on_impl: true });
+        }
+    }
+    rep.streams.push(st);
+    Ok(())
+}
+
 fn corpus(rep: &mut Report) {
     let mut st = Stream::new("corpus", "oracle", "files of /verif/corpus/C04 (past failures and known findings): the document must transform with every element preserved");
     let dir = std::path::Path::new("/verif/corpus/C04");
@@ -432,5 +470,6 @@ pub fn run(rep: &mut Report, tier: &str, seed: u64) -> Result<(), String> {
     rep.streams.push(orc);
     rep.streams.push(corr);
     scan_stream(rep, &mut drv, &mut rng.fork(), n_scan)?;
+    fstr_stream(rep, &mut drv, &mut rng.fork(), n_scan)?;
     Ok(())
 }
